@@ -108,7 +108,7 @@ def run_case(prog):
     if out[0] == "addSkip" and not model.skipped_by_decorator:
         skips = [r for r in model.raised if P.klass(r["kind"]) == "skip"]
         rs = delivered.get("reason")
-        if rs is None or not any(("MARK-%d-" % r["i"]).encode() == rs[1] for r in skips):
+        if rs is None or not any((b"" if r["kind"] == "skip_empty" else ("MARK-%d-" % r["i"]).encode()) == rs[1] for r in skips):
             vs.append(V("reason", "skip", "skip reason detail is %r, raised skips %r" % (rs and rs[1], [r["i"] for r in skips])))
     # handlers
     user_raises = [r for r in model.raised if r["kind"] not in ("forced", "setup_error")]
